@@ -588,3 +588,4 @@ class LazyTextfile:
         """
         self._check_open()
         self.file_handle.write(msg)
+        self.file_handle.flush()
